@@ -64,10 +64,10 @@ BadRows(T, m) == {p \in DOMAIN m : LET w == m[p] IN
 ModelMatches(T, m) == BadRows(T, m) = {} /\ SumNames(T, DOMAIN T.dent) = Cardinality(DOMAIN m) - 1
 
 (* ---------------- known findings as predicates over the request and the A-level state ---------------- *)
-\* each returns the set of finding ids the step goes through
+\* the findings whose effects cascade into later steps of the same history (descriptor closed behind a
+\* handle; trees out of step after a request that should have succeeded)
 PtKnown(q, p, h) ==
   (IF X.seal /\ q.op = "write" /\ p.st # "OK" THEN {"refused-write"} ELSE {})      \* a refused WRITE drops the handle's descriptor
-  \cup (IF q.op = "create" /\ p.st = "OK" /\ h.st = "OK" /\ Has(p, "attr") /\ Has(h, "attr") /\ "TRUNC" \in SeqSet(q.fl) /\ p.attr.size # h.attr.size THEN {"create-trunc-stale-attr"} ELSE {})
   \cup (IF X.ifh /\ q.op \in {"mkdir", "symlink", "create"} /\ q.uid # 0 /\ p.st = "EPERM" /\ h.st # "EPERM" THEN {"ifh-nonroot-mkdir"} ELSE {})
 
 (* ---------------- comparison of answers ---------------- *)
